@@ -168,6 +168,8 @@ class H(explore.Harness):
                       'opened-in-or-after-shutdown=%d' % sum(1 for c in st.w.conns[:before] if c.open_phase is not None)))
         if any(c.handshake_phase not in ('before', 'never', 'failed') for c in st.w.conns[:before]):
             part.count('histories_with_handshake_completed_after_shutdown_began')
+        if any(a[1] is not None and a[1].startswith(('draining', 'returned')) and a[2] == 'failed' for a in trk.attempt_log):
+            part.count('histories_with_connection_attempt_failing_after_shutdown_did_its_work')
 
     def cleanup(self, st):
         st.close()
@@ -193,6 +195,13 @@ def e_configs(ctx):
         # the control connection's node dies: control connection reconnect (+ its reconnection handler when nobody is up)
         ('control', dict(scenario='control', alphabet=['kill', 'revive', 'sched'], prefix=[('exec',), ('exec',)], max_exec=2,
                          killable=(0, 1) if t else (0,), task_window=tw), 10 if t else 8),
+        # three nodes, the control connection's node dies and the next node of the plan does not serve NEW connections
+        # (closes them at the first / third request, never answers, fails STARTUP): the reconnect has to go on to the third
+    ] + [
+        ('control3-' + f, dict(scenario='control3-' + f, hosts=3, degraded={1: f}, alphabet=['kill', 'revive', 'sched'], prefix=[('exec',), ('exec',)],
+                               max_exec=2, killable=(0,), task_window=tw), 9 if t else 7)
+        for f in (('eof0', 'eof2', 'mute0', 'err1') if t else ('eof0', 'eof2', 'mute0'))
+    ] + [
         # protocol v2, legacy HostConnectionPool (1..2 connections per host, a second one is opened when the first is busy)
         ('legacy', dict(scenario='legacy', protocol_version=2, legacy_pool=(1, 2, 1), alphabet=['exec', 'respond', 'timer'], max_exec=3,
                         task_window=tw), 8 if t else 6),
@@ -222,6 +231,9 @@ def s_harness(params, prefix, part):
         if params.get('server', 'ok') != 'ok':
             # how the node treats the first connection attempt made from now on (c45lib.FAULTS); later ones are served
             st.fail_next_connection(params['server'])
+        if params.get('later', 'ok') != 'ok':
+            # ... and every later attempt like this (e.g. 'refuse': no node takes a new connection any more)
+            st.faults.append([None, None, c45lib.FAULTS[params['later']]])
         s = sched.Scheduler(prefix, focus=_FOCUS, horizon=params.get('horizon', 60000), clock=st.w.clock)
         kind = params['kind']
         clients = [('shutdown', lambda: st.shutdown(kind))]
@@ -237,6 +249,7 @@ def s_harness(params, prefix, part):
         if st.held_use():
             # the node's answer to the application's USE (sent in the prefix) arrives at some moment of the schedule
             clients.append(('node-answers-use', st.release_use))
+        n0 = len(st.w.conns)
         c45lib.run_schedule(st, s, clients, nworkers=params.get('workers', 1))
         data['prefix'] = s.choices()
         if s.failure:
@@ -267,7 +280,7 @@ def s_harness(params, prefix, part):
             part.count('S_histories_with_attempt_under_way_at_shutdown_failing_after_it')
         if any(a[0] in (None, 'in') and a[1] in done and a[2] == 'connected' for a in trk.attempt_log):
             part.count('S_histories_with_attempt_under_way_at_shutdown_connecting_after_it')
-        for c in st.w.conns:
+        for c in st.w.conns[n0:]:
             if c.creator in c45lib.POOL_KINDS and len(set(u[0] for u in c.use_log)) > 1:
                 part.count('S_histories_with_keyspace_switch_on_connection_being_opened')
                 if any(u[1] == 'before' and u[2] not in ('before', None) for u in c.use_log[1:]):
@@ -314,6 +327,27 @@ def s_configs(ctx):
         for name, p in base:
             for kind in ('cluster', 'session'):
                 out.append((dict(p, scenario=name, kind=kind, server='ok', workers=2), 1, 60))
+    # the session keyspace changes while a pool connection is being opened: the application's USE was sent before (prefix), the
+    # node's answer arrives at a moment the schedule chooses (thread 'node-answers-use'); the pool creation / replacement then
+    # has to move its new connection to the new keyspace (lock released meanwhile) before it publishes it.  Four or five
+    # threads: switches at blocking points only (thorough: + 1 preemption under a per-subtree cap)
+    ks = [('poolks', dict(keyspace='ks1', prefix=to_probe + [('task', 0), ('use', 'ks2')])),
+          ('replaceks', dict(hosts=1, orphaned_threshold=1, keyspace='ks1', prefix=[('exec',), ('timer',), ('exec',), ('use', 'ks2')]))]
+    for name, p in ks:
+        for kind in ('cluster', 'session'):
+            out.append((dict(p, scenario=name, kind=kind, server='ok'), 0, None))
+            if ctx.thorough:
+                out.append((dict(p, scenario=name, kind=kind, server='ok'), 1, 12))
+    # control-connection reconnect over a plan of two nodes (three nodes, the control connection's node died); the attempt to
+    # the first one fails in each way a node can fail a connection (c45lib.FAULTS).  The second node serves: switches at blocking
+    # points (a long cascade follows); no node takes a connection any more (short): + 1 preemption
+    c3 = dict(hosts=3, prefix=[('exec',), ('exec',), ('kill', 0), ('task', 0), ('task', 0)])
+    for f in sorted(c45lib.FAULTS):
+        out.append((dict(c3, scenario='control3', kind='cluster', server=f), 0, None))
+        if ctx.thorough:
+            out.append((dict(c3, scenario='control3', kind='cluster', server=f), 1, 8))
+    for f in ('eof0', 'eof2', 'err1', 'mute0'):
+        out.append((dict(c3, scenario='control3', kind='cluster', server=f, later='refuse'), 1, None))
     # Cluster.connect() in one client thread, Cluster.shutdown() in another, from an unconnected cluster
     for order in ((1, -1) if ctx.thorough else (1,)):
         out.append((dict(scenario='connect', kind='cluster', server='ok', race_connect=True, future_order=order),
@@ -358,8 +392,9 @@ def run_s(ctx):
     jobs, info = [], {}
     for (params, bound, cap), (part, kids, npts) in zip(cfgs, roots):
         ctx.merge(part)
-        name = 'c45-S-%s-%s-%s%s%s-b%d' % (params['scenario'], params['kind'], params['server'],
-                                          '-w2' if params.get('workers') == 2 else '',
+        name = 'c45-S-%s-%s-%s%s%s%s-b%d' % (params['scenario'], params['kind'], params['server'],
+                                            '-then-' + params['later'] if params.get('later') else '',
+                                            '-w2' if params.get('workers') == 2 else '',
                                           '-newest-first' if params.get('future_order') == -1 else '', bound)
         info[name] = {'params': jsonable(params), 'preemption_bound': bound, 'executions': 1, 'max_choice_points': npts,
                       'subtree_cap': cap, 'complete': True}
